@@ -616,7 +616,7 @@ def run(tier, seed, t0):
         tf = os.path.join(work, "trace.ndjson")
         core.write_ndjson(tf, rows)
         exp = core.validate("Trace_Tket", "Out", tf, work, constants=VC(), timeout=3000)["rows"]
-        rejected, clauses = [], Counter()
+        rejected, clauses = core.track([]), Counter()
         for r, e in zip(judged, exp):
             clause = e["v"][0]
             if clause == "ok" and r["kind"] == "to_tk":
